@@ -5,6 +5,8 @@ props=[json.loads(l)['id'] for l in open('/verif/properties.jsonl')]
 TECH="contract-based deductive verification: VC generation (symbolic execution against contracts) over go/ssa of the real functions, contracts in /repo/<pkg>/zz_verif_contracts.go, obligations discharged by z3 4.8.12 / z3 5.1.0 / cvc5 1.0"
 COMMON="Trusted: go/packages+go/ssa (x/tools v0.29.0), the govc SSA->SMT translation, the SMT solvers; sequential execution (mutex operations, logging dropped); machine arithmetic is exact (wrap-around for narrow types, overflow obligations for 64-bit in int mode, bit-vectors in bv mode). "
 CLAIMS={
+ 'C12':("proof","Point.ToPb/PbToPoint, ToSerial/SerialToPoint, NodeEdge.ToPbNode/PbToNode, the list codecs (Points.ToPb, PbDecodePoints, PbDecodeSerialPoints, PbDecodeNode, PbDecodeNodeRequest, PbDecodeNodes, PbDecodeNodesRequest, Nodes.ToPb/ToPbNodes), DecodeSerialHrPayload and the four NATS subject parsers are under contract: every field is copied in both directions (lemma functions compose encode+decode: all eight point fields, float value bit for bit, ns time), and every nil/bounds/slice obligation of the decoders is discharged for arbitrary decoded messages, payload bytes and subjects.",
+   COMMON+"proto.Marshal/Unmarshal are library functions modelled natively (Unmarshal yields an arbitrary well-formed message of the target type, repeated message fields without nil elements, or an error; that Unmarshal inverts Marshal is assumed, not proved); ptypes.Timestamp/TimestampProto are assumed inverse on years 1..9999 and total on nil; bytes.Trim and strings.Split by thin contracts; the round trip of Tombstone needs it to fit int32 (stated as a precondition of that clause).","DESIGN.md §7 C12"),
  'C18':("proof","Every function the server's answer depends on (PDU.ProcessRequest, handleError and all Regs read/write methods) is under contract; ~1900 obligations (postconditions per function code, loop invariants and variants, frame, bounds/nil/shift/overflow safety) are regenerated from the current source on every run and all must be discharged, for every request byte string and every register file, with no bound.",
    COMMON+"The register provider is devirtualised to *Regs (precondition); Validate callbacks are pure functions; definitional axioms of the abstract register view (hasReg, regVal, regOK, hasCoil, coilVal, firstIdx_exists) and the bit axioms (bitof/setbit) are assumed.","DESIGN.md §7 C18"),
  'C19':("proof","RTU/TCP Encode/Decode, CheckRtuCrc, request builders, response decoders, the six Client methods, the twelve register conversions and six lemma functions (transport round trips; request built by the client -> processed by the server -> decoded as the client decodes it) are under contract; ~2600 obligations regenerated from source and discharged for all inputs.",
